@@ -1,10 +1,20 @@
 #!/bin/bash
-# Offline setup: build the Lean project (theorems + model drivers) and prime the Go build cache.
+# Offline setup: build the Lean theorems + model drivers of every enabled property, prime the Go build cache.
 set -e
 cd "$(dirname "$0")/.."
 export GOFLAGS=-mod=mod GOPROXY=off
+unset GOSUMDB GOTOOLCHAIN
 mkdir -p .work/bin evidence
-( cd lean && lake build Aqv Driver $(grep -o 'name = "aqmodel_[a-z0-9_]*"' lakefile.toml | cut -d'"' -f2) )
+TARGETS=$(python3 -c "
+import sys; sys.path.insert(0,'tools')
+from props import PROPS
+t=[]
+for k,c in PROPS.items():
+    t.append(c['lean'])
+    if c.get('exe'): t.append(c['exe'])
+print(' '.join(t))")
+tools/lk build $TARGETS
 cp /repo/go.sum go/harness/go.sum
-( cd go/harness && go build ./... )
+( cd go/harness && go build ./... ) || true
+( cd /repo && go build ./core/... ./rlp/... ./trie/... ./p2p/... ./rpc/... ./consensus/... ./aqua/accounts/... ) || true
 echo setup ok
